@@ -149,6 +149,14 @@ class Gen:
                 return c(r.randrange(0, 13))
             return n(self.pick(["i", "j", "i", "zz"] if r.random() < 0.15 else ["i", "j"]))
         k = r.random()
+        if r.random() < 0.06 * (self.consts + self.arith):
+            # a foldable operand next to a run-time operator of higher precedence than the folded form's own syntax
+            neg = self.pick([[A("un"), "-", c(r.randrange(1, 5))], [A("bin"), "-", c(1), c(r.randrange(2, 6))],
+                             [A("un"), "-", [A("un"), "+", c(2)]], [A("bin"), "*", c(3), [A("un"), "-", c(1)]]])
+            return self.pick([[A("bin"), "**", neg, n(self.pick(["j", "i"]))],
+                              [A("filter"), neg, "abs"],
+                              [A("bin"), "-", n("i"), neg],
+                              [A("un"), "-", neg]])
         if k < 0.45 or r.random() < self.arith:
             op = self.pick(["+", "-", "*", "//", "%", "**", "+", "-", "*"])
             if op == "**":
